@@ -490,6 +490,10 @@ class SourceCatalog:
         for attr in init_attr:
             setattr(newcls, attr, getattr(self, attr))
 
+        # the list of extra properties is modified in place by the
+        # *_extra_property methods, so the new catalog needs its own
+        newcls._extra_properties = self._extra_properties.copy()
+
         # _labels determines ordering and isscalar
         attr = '_labels'
         setattr(newcls, attr, getattr(self, attr)[index])
